@@ -12,3 +12,9 @@ import GlareModel.Proofs.SortKeyCol
 import GlareModel.Props.C08
 import GlareModel.Props.C12
 import GlareModel.Props.C13
+import GlareModel.Props.C01
+import GlareModel.Props.C02
+import GlareModel.Props.C03
+import GlareModel.Props.C06
+import GlareModel.Props.C07
+import GlareModel.Props.C09
